@@ -178,6 +178,10 @@ def check(case):
     key = (case['factory'] if case['factory'] != 'dynamics' else 'single', case['model'], case['mode'], case['proj'], case['order'], max(qdeg, 1))
     F = get_fns(key)
     U = smooth_field(coords, case['ucoef'], case['amp'])
+    if case['mode'] == 'axisymmetric':
+        # the hoop stretch 1 + u_r / r must stay positive (the field is scaled with the mesh extent, which on slender
+        # meshes exceeds the radius): keep |u_r| <= 0.3 r_min
+        U = U * min(1.0, 0.3 * coords[:, 0].min() / max(onp.abs(U[:, 0]).max(), 1e-300))
     tau = min(pr['taus'])
     dt = case['dtrel'] * tau
     what = '%s, %s, %s, projection %s, order %d' % (case['factory'], case['model'], case['mode'], case['proj'], case['order'])
